@@ -120,6 +120,10 @@ theorem outflow_transform (hE : IsExp E) (x : Ix → Signal K) (s : K) (hx : ∀
     simp only [outflowT, outflow, atS, L_append, L_twoTermT, L_smul, transformOf]; congr 2; ring
   | GY n1 n2 n3 n4 m1 m2 r => simp only [outflowT, outflow, atS, L_append, L_twoTermT, transformOf]
   | Open n1 n2 => simp [outflowT, outflow, atS]
+  | TPA n1 n2 n3 n4 m a11 a12 a21 a22 =>
+    simp only [outflowT, outflow, atS, L_append, L_twoTermT, L_subP, L_smul, L_vpost, transformOf]
+  | TPY n1 n2 n3 n4 y11 y12 y21 y22 =>
+    simp only [outflowT, outflow, atS, L_append, L_twoTermT, L_smul, L_vpost, transformOf]
   | _ => simp only [outflowT, outflow, atS, L_twoTermT, transformOf]
 
 /-- the transform of every defining-relation residual is the s-domain (ivp) residual -/
@@ -149,6 +153,15 @@ theorem laws_transform (hE : IsExp E) (x : Ix → Signal K) (s : K) (hx : ∀ ix
     simp only [lawsT, laws, atS, List.map_cons, List.map_nil, L_subP, L_append, L_smul, L_vpost, transformOf]
   | AM n1 n2 m => simp only [lawsT, laws, atS, List.map_cons, List.map_nil, L_vpost]
   | TR n1 n2 m a => simp only [lawsT, laws, atS, List.map_cons, List.map_nil, L_subP, L_smul, L_voltT]
+  | TPA n1 n2 n3 n4 m a11 a12 a21 a22 =>
+    simp only [lawsT, laws, atS, List.map_cons, List.map_nil, L_subP, L_smul, L_vpost, transformOf]
+  | HY n1 n2 m n3 n4 mc y isc h =>
+    have hd : L E [Term.dl isc 0 0] s = isc := by
+      simp [L_cons, Term.L, pw, hE.zero]
+    simp only [lawsT, laws, atS, List.map_cons, List.map_nil, L_subP, L_smul, L_vpost, transformOf, hd]
+  | SP n1 n2 n3 n4 m c1 c2 c4 =>
+    simp only [lawsT, laws, atS, List.map_cons, List.map_nil, L_subP, L_append, L_smul, L_voltT]
+    try (congr 2; ring)
   | _ => simp [lawsT, laws, atS]
 
 theorem restC_of_rest {tcs : List (TCpt K)} {x : Ix → Signal K} (h : RestWhereUnspecified tcs x)
